@@ -30,6 +30,8 @@ CHECKS = {
          "Not decided: exact drop counts over histories; leaks the statement allows; panics thrown by Drop itself; iterator adaptors' internal protocols beyond the tabled ones."),
  "C07": ("The panicking error behaviour is uninhabited and its constructors diverge (R1); binding-aware call-graph proof that no try_* function and no allocator-interface method reaches the allocation-failure panic set or binds an ErrorBehavior parameter to Infallible (R2); failed chunk creation links nothing (R3); reserve-before-write in every single-operation E-generic collection method (R4); checked size computations with error-constructing failure edges, never unwrapped (R5).",
          "Not decided: the post-failure values (previous length and contents) beyond what the ordering implies; multi-step iterator-driven operations; leaks/double drops after failure (see C06)."),
+ "C08": ("Claimed narrowly: facade methods delegate to the same-named shared slice implementation (R1); index-derived raw accesses are gated by std's bound relation with a diverging failure arm (R2); element shuffles of remove / swap_remove / insert against Vec's contract in affine normal form, forward and mirrored for the reverse vector (R3); capacity promises: grow only when needed, amortised vs exact policy, ZST never grows / capacity MAX (R4).",
+         "NOT decided: equivalence with Vec over operation sequences, iterators (drain/splice/extract_if results), sort/dedup outcomes, lengths after multi-step operations."),
  "C10": ("Every written position value is min-aligned by construction and the aligner helpers have their canonical form (R1, R1c); accounting identities allocated+remaining=capacity, size-capacity=header size and the Stats/AnyStats sum shapes (R2, affine value numbering); typed == type-erased accessors as affine normal forms (R3) and no size-dependent arithmetic on the erased header (R3b); chunk list link protocol (R4); recorded chunk size = aligned granted size (R5).",
          "Not decided: the numbers themselves (position inside the chunk, strict growth of chunk sizes, multiples of 16)."),
  "C12": ("Claimed narrowly: no plain/wrapping/unchecked + or * in the size computations, plain - only where tabled (R1); failures become None/capacity_overflow, nothing unwrapped (R2); slow path sizes by max(hint for layout, checked doubling) (R3); rounding order and presence of every summand of the capacity hint (overhead, header, bytes + worst-case padding, MIN_CHUNK_ALIGN slack) for up and down, min raise, align_size after the overhead subtraction (R4, value numbering).",
